@@ -13,17 +13,23 @@
 (* FsStruct (cached inode = disk inode) at every idle snapshot. LookupFirst = TRUE (the   *)
 (* cache slot is looked up BEFORE the inode lock is waited for - a seeded change: the      *)
 (* slot can be evicted and the inode cached afresh while the transaction waits, which then *)
-(* works on a dead copy).                                                                   *)
+(* works on a dead copy). ReuseEntry = TRUE (seeded twice, r11cache and r19r: eviction hands  *)
+(* the evicted entry's memory to the inode that is being looked up): a transaction that has    *)
+(* been given an EMPTY slot and is still reading its inode from the disk fills, when it is      *)
+(* done, a slot that by now belongs to another inode.                                            *)
 EXTENDS Integers, FiniteSets, TLC
-CONSTANTS Inums, Txns, NSlots, MaxVal, DropOnAbort, AlwaysWrite, LookupFirst
+CONSTANTS Inums, Txns, NSlots, MaxVal, DropOnAbort, AlwaysWrite, LookupFirst, ReuseEntry
 
 VARIABLES disk,     \* inum -> committed value
           cache,    \* inum -> value | -1 (not cached)
           lock,     \* inum -> txn | 0
-          tx        \* txn -> [pc, i (inum), copy (the value it works on), dirty (journalled)]
-vars == <<disk, cache, lock, tx>>
+          tx,       \* txn -> [pc, i (inum), copy (the value it works on), dirty (journalled)]
+          fill      \* txn -> 0 | the inode whose slot the transaction will fill when it has read its own inode from the disk
+                    \* (its own number: the slot it was given; another number: that slot's memory was re-used meanwhile; -1: the slot is dead)
+vars == <<disk, cache, lock, tx, fill>>
 Idle == [pc |-> "idle", i |-> 0, copy |-> 0, dirty |-> FALSE, changed |-> FALSE]
 Init == disk = [i \in Inums |-> 0] /\ cache = [i \in Inums |-> -1] /\ lock = [i \in Inums |-> 0] /\ tx = [t \in Txns |-> Idle]
+        /\ fill = [t \in Txns |-> 0]
 
 Cached == {i \in Inums : cache[i] # -1}
 (* negative control LookupFirst: the slot is obtained first ("peeked": the transaction holds a pointer to the cached object, *)
@@ -33,39 +39,61 @@ Peek(t, i) ==
   /\ \E ev \in (IF i \in Cached \/ Cardinality(Cached) < NSlots THEN {0} ELSE Cached \ {i}) :
         cache' = [j \in Inums |-> IF j = i THEN (IF cache[i] # -1 THEN cache[i] ELSE disk[i]) ELSE IF j = ev THEN -1 ELSE cache[j]]
   /\ tx' = [tx EXCEPT ![t] = [pc |-> "peeked", i |-> i, copy |-> 0, dirty |-> FALSE, changed |-> FALSE]]
-  /\ UNCHANGED <<disk, lock>>
+  /\ UNCHANGED <<disk, lock, fill>>
 Acquire(t) ==      \* the lock is granted: the pointer is to the live object, unless the slot was evicted meanwhile ("dead")
   /\ tx[t].pc \in {"peeked", "dead"} /\ lock[tx[t].i] = 0
   /\ lock' = [lock EXCEPT ![tx[t].i] = t]
   /\ tx' = [tx EXCEPT ![t].pc = "held", ![t].copy = IF tx[t].pc = "dead" THEN @ ELSE cache[tx[t].i]]
-  /\ UNCHANGED <<disk, cache>>
+  /\ UNCHANGED <<disk, cache, fill>>
 Lock(t, i) ==      \* LockInode + LookupSlot (+ load from the journal when the slot is empty); a full cache evicts some entry
-  /\ ~LookupFirst /\ tx[t].pc = "idle" /\ lock[i] = 0
+  /\ ~LookupFirst /\ tx[t].pc = "idle" /\ lock[i] = 0 /\ i \in Cached     \* a hit (a miss is two steps, below)
   /\ lock' = [lock EXCEPT ![i] = t]
   /\ \E ev \in (IF i \in Cached \/ Cardinality(Cached) < NSlots THEN {0} ELSE Cached) :
         cache' = [j \in Inums |-> IF j = i THEN (IF cache[i] # -1 THEN cache[i] ELSE disk[i]) ELSE IF j = ev THEN -1 ELSE cache[j]]
   /\ tx' = [tx EXCEPT ![t] = [pc |-> "held", i |-> i, copy |-> IF cache[i] # -1 THEN cache[i] ELSE disk[i], dirty |-> FALSE, changed |-> FALSE]]
-  /\ UNCHANGED disk
+  /\ UNCHANGED <<disk, fill>>
+(* A miss. The transaction is given an empty slot for i (evicting some entry when the cache is full) and reads the  *)
+(* inode from the disk; Fill puts the object into the slot it was given - whose memory may belong to another inode by then.    *)
+Occupied == Cardinality(Cached) + Cardinality({u \in Txns : tx[u].pc = "reading" /\ fill[u] = tx[u].i})   \* entries, the empty ones included
+Miss(t, i) ==
+  /\ ~LookupFirst /\ tx[t].pc = "idle" /\ lock[i] = 0 /\ i \notin Cached /\ \A u \in Txns : fill[u] # i
+  /\ lock' = [lock EXCEPT ![i] = t]
+  /\ \E ev \in (IF Occupied < NSlots \/ Cached = {} THEN {0} ELSE Cached) : cache' = [j \in Inums |-> IF j = ev THEN -1 ELSE cache[j]]
+  /\ tx' = [tx EXCEPT ![t] = [pc |-> "reading", i |-> i, copy |-> disk[i], dirty |-> FALSE, changed |-> FALSE]]
+  /\ fill' = [fill EXCEPT ![t] = i] /\ UNCHANGED disk
+(* another lookup misses while the cache is full of entries in use and t's still empty entry is the eviction victim: its memory  *)
+(* now is inode j's slot (j is loaded and cached by its own transaction, not modelled further: j is simply cached)                *)
+Steal(t, j) ==
+  /\ ReuseEntry /\ Occupied >= NSlots /\ tx[t].pc = "reading" /\ fill[t] = tx[t].i /\ j # tx[t].i /\ lock[j] = 0 /\ cache[j] = -1
+  /\ fill' = [fill EXCEPT ![t] = j] /\ cache' = [cache EXCEPT ![j] = disk[j]] /\ UNCHANGED <<disk, lock, tx>>
+(* as built: the evicted entry is simply dropped; the transaction still holds a pointer to it and fills dead memory *)
+Kill(t) ==
+  /\ ~ReuseEntry /\ Occupied >= NSlots /\ tx[t].pc = "reading" /\ fill[t] = tx[t].i /\ fill' = [fill EXCEPT ![t] = -1] /\ UNCHANGED <<disk, cache, lock, tx>>
+Fill(t) ==
+  /\ tx[t].pc = "reading"
+  /\ cache' = IF fill[t] = -1 THEN cache
+              ELSE [cache EXCEPT ![fill[t]] = tx[t].copy + (IF fill[t] = tx[t].i THEN 0 ELSE 100)]    \* (+100: the object of another inode)
+  /\ tx' = [tx EXCEPT ![t].pc = "held"] /\ fill' = [fill EXCEPT ![t] = 0] /\ UNCHANGED <<disk, lock>>
 Modify(t) ==       \* the cached object is changed in place (when its slot was evicted meanwhile, only the holder still has it)
   /\ tx[t].pc = "held" /\ tx[t].copy < MaxVal
   /\ LET i == tx[t].i  v == tx[t].copy + 1 IN
      /\ tx' = [tx EXCEPT ![t].copy = v, ![t].changed = TRUE, ![t].dirty = IF AlwaysWrite THEN TRUE ELSE @]
-     /\ cache' = IF cache[i] # -1 THEN [cache EXCEPT ![i] = v] ELSE cache
-  /\ UNCHANGED <<disk, lock>>
+     /\ cache' = IF cache[i] # -1 /\ cache[i] < 100 THEN [cache EXCEPT ![i] = v] ELSE cache
+  /\ UNCHANGED <<disk, lock, fill>>
 Journal(t) ==      \* WriteInode for a change made earlier (only needed in the negative control)
-  /\ tx[t].pc = "held" /\ tx[t].changed /\ ~tx[t].dirty /\ tx' = [tx EXCEPT ![t].dirty = TRUE] /\ UNCHANGED <<disk, cache, lock>>
+  /\ tx[t].pc = "held" /\ tx[t].changed /\ ~tx[t].dirty /\ tx' = [tx EXCEPT ![t].dirty = TRUE] /\ UNCHANGED <<disk, cache, lock, fill>>
 Commit(t) ==
   /\ tx[t].pc = "held"
   /\ disk' = IF tx[t].dirty THEN [disk EXCEPT ![tx[t].i] = tx[t].copy] ELSE disk
-  /\ lock' = [lock EXCEPT ![tx[t].i] = 0] /\ tx' = [tx EXCEPT ![t] = Idle] /\ UNCHANGED cache
+  /\ lock' = [lock EXCEPT ![tx[t].i] = 0] /\ tx' = [tx EXCEPT ![t] = Idle] /\ UNCHANGED <<cache, fill>>
 Abort(t) ==
   /\ tx[t].pc = "held"
   /\ cache' = IF DropOnAbort /\ tx[t].changed THEN [cache EXCEPT ![tx[t].i] = -1] ELSE cache
-  /\ lock' = [lock EXCEPT ![tx[t].i] = 0] /\ tx' = [tx EXCEPT ![t] = Idle] /\ UNCHANGED disk
+  /\ lock' = [lock EXCEPT ![tx[t].i] = 0] /\ tx' = [tx EXCEPT ![t] = Idle] /\ UNCHANGED <<disk, fill>>
 Evict(i) ==        \* cache pressure from inodes outside the model
-  /\ cache[i] # -1 /\ cache' = [cache EXCEPT ![i] = -1] /\ UNCHANGED <<disk, lock>>
+  /\ cache[i] # -1 /\ cache' = [cache EXCEPT ![i] = -1] /\ UNCHANGED <<disk, lock, fill>>
   /\ tx' = [t \in Txns |-> IF tx[t].pc = "peeked" /\ tx[t].i = i THEN [tx[t] EXCEPT !.pc = "dead", !.copy = cache[i]] ELSE tx[t]]
-Next == (\E t \in Txns : (\E i \in Inums : Lock(t, i) \/ Peek(t, i)) \/ Acquire(t) \/ Modify(t) \/ Journal(t) \/ Commit(t) \/ Abort(t)) \/ (\E i \in Inums : Evict(i))
+Next == (\E t \in Txns : (\E i \in Inums : Lock(t, i) \/ Peek(t, i) \/ Miss(t, i) \/ Steal(t, i)) \/ Fill(t) \/ Kill(t) \/ Acquire(t) \/ Modify(t) \/ Journal(t) \/ Commit(t) \/ Abort(t)) \/ (\E i \in Inums : Evict(i))
 Spec == Init /\ [][Next]_vars
 
 Coherent == \A i \in Inums : (lock[i] = 0 /\ cache[i] # -1) => cache[i] = disk[i]
